@@ -5,9 +5,10 @@
   unknown or malformed operations answer `bad-op` (never a default value).
 -/
 import NV.Driver.Core
+import NV.Driver.Cap
 namespace NV
 
-def steppers : List (List String → Option String) := [stepCore]
+def steppers : List (List String → Option String) := [stepCore, stepCap]
 
 def step (line : String) : String :=
   let toks := line.splitOn " "
